@@ -12,6 +12,15 @@ def scenario(G, K, mode):
         if mode == "nested":
             hist, frel = "R/A", "R/A/f.txt"
             b.mkfile("R/top.txt", 900)
+        elif mode == "deep":
+            hist, frel = "R/A/B/C", "R/A/B/C/f.txt"
+            b.mkfile("R/top.txt", 900)
+            b.mkfile("R/A/a.txt", 901)
+            b.mkfile("R/A/B/b.txt", 902)
+            # R/A/B and R/A are histories of their own before C and its file exist: with the run from R four histories are stacked
+            for hr in ("R/A/B", "R/A"):
+                r0 = b.run("create", root=hr, h=["md5"], n=True)
+                b.require(r0.exit == 0, "setup-create", "%s: %s" % (hr, r0))
         elif mode == "parent-of-nested":
             hist, frel = "R", "R/f.txt"
             b.mkfile("R/A/a.txt", 900)
@@ -42,6 +51,10 @@ def scenario(G, K, mode):
                 b.require(r.exit == 0, "setup-create", str(r))
                 r = b.run("create", root="R", h=req, n=True)
             elif mode == "parent-of-nested":
+                r = b.run("create", root="R", h=req, n=True)
+            elif mode == "deep" and g == 0:
+                r = b.run("create", root="R/A/B/C", h=req, n=True)
+            elif mode == "deep":
                 r = b.run("create", root="R", h=req, n=True)
             elif mode == "nested" and g == 0:
                 r = b.run("create", root="R/A", h=req, n=True)
@@ -168,7 +181,7 @@ def cm_rel(p):
     return posixpath.relpath(p, "R")
 
 
-def harnesses(tier):
+def _harnesses(tier):
     hs = [Harness("c04-after-rename", after_rename, frontier=4, budget_s=600,
                   what="record, rename, create -dr, then two more generations with the content kept / altered / restored (folder or -sf mode)",
                   bounds={"generations": 4}, outside=[]),
@@ -176,9 +189,9 @@ def harnesses(tier):
                   what="12 generations: a second format first recorded in generation 2/5/9, content altered from generation 10/11, optionally restored in 12",
                   bounds={"generations": 12, "formats": ["md5", "xxh64"]}, outside=[])]
     if tier == "quick":
-        cfg = [(3, 3, "folder"), (4, 2, "folder"), (2, 3, "sf"), (2, 2, "nested"), (2, 2, "parent-of-nested")]
+        cfg = [(3, 3, "folder"), (4, 2, "folder"), (2, 3, "sf"), (2, 2, "nested"), (2, 2, "parent-of-nested"), (2, 2, "deep")]
     else:
-        cfg = [(4, 3, "folder"), (3, 4, "folder"), (5, 2, "folder"), (4, 3, "sf"), (4, 3, "nested"), (3, 3, "parent-of-nested")]
+        cfg = [(4, 3, "folder"), (3, 4, "folder"), (5, 2, "folder"), (4, 3, "sf"), (4, 3, "nested"), (3, 3, "parent-of-nested"), (3, 2, "deep")]
     for G, K, mode in cfg:
         hs.append(Harness("c04-%s-G%d-K%d" % (mode, G, K), scenario(G, K, mode), frontier=5, budget_s=1500,
                           what="%d create runs over one file, each with any non-empty subset of %s, content kept/altered/"
@@ -186,3 +199,8 @@ def harnesses(tier):
                           bounds={"generations": G, "formats": ALL[:K], "content_versions": 3, "mode": mode, "file_size": 5},
                           outside=["more than %d generations" % G, "formats outside the listed ones", "several files"]))
     return hs
+
+
+def harnesses(tier):
+    from . import tour
+    return list(_harnesses(tier)) + tour.harnesses(tier, "C04")
